@@ -88,6 +88,11 @@ Definition key_eqb (a b : string * string * string) : bool :=
 Definition uncovered_sink_calls (calls : list (string * string * string)) (sinks : list g_sink) : list (string * string * string) :=
   filter (fun c => negb (existsb (fun k => key_eqb c (sink_key k)) sinks)) calls.
 
+(* what HttpSymbolSupplier::new does to each server URL before Url::parse (Gen/C17Flow.v g_server_url_norm) *)
+Inductive g_url_norm :=
+| UnAppendSlash        (* `if !u.ends_with('/') { u.push('/'); }` then `Url::parse(&u).ok()` — C17/UrlFull.v normalise_suffix *)
+| UnUnknown.           (* anything else; g_server_url_norm_text says what *)
+
 (* fn names as bytes (Gen/C17Flow.v g_flow_table is the string-free copy of g_consumer_joins the driver uses) *)
 Definition bytes_of_string (s : string) : list Z :=
   map (fun a => Z.of_N (Ascii.N_of_ascii a)) (list_ascii_of_string s).
